@@ -878,6 +878,8 @@ impl ASN1Value {
         ty: &ASN1Type,
         type_name: Option<&String>,
     ) -> Result<(), GrammarError> {
+        #[cfg(feature = "verif-hooks")]
+        let _verif_depth = crate::verif_hooks::enter();
         #[allow(clippy::useless_asref)] // false positive
         match (ty, self.as_mut()) {
             (
@@ -1342,6 +1344,8 @@ impl ASN1Value {
         identifier: &mut String,
         mut supertypes: Vec<String>,
     ) -> Result<Option<ASN1Value>, GrammarError> {
+        #[cfg(feature = "verif-hooks")]
+        let _verif_depth = crate::verif_hooks::enter();
         match tlds.get(&e.identifier) {
             Some(ToplevelDefinition::Type(ToplevelTypeDefinition {
                 ty: ASN1Type::Enumerated(enumerated),
